@@ -134,7 +134,7 @@ fn main() {
         "conc" => {
             watchdog::start(prop.clone());
             rep.max_violations_per_key = 1;
-            let pool = conc::Pool::new(3);
+            let pool = conc::Pool::new(4);
             let mut shapes: Vec<(Vec<usize>, usize)> = vec![];
             for sh in args.str("shapes", "1+1:1").split(',') {
                 let (a, b) = sh.split_once(':').unwrap_or((sh, "1"));
@@ -149,6 +149,8 @@ fn main() {
                 emit_known: args.flag("emit-known"),
                 targeted: args.flag("targeted"),
                 targeted_budget: args.num("targeted-budget", 5000),
+                sampled_budget: args.num("sampled-budget", 3000),
+                seed: args.num("seed", 1),
             };
             let sel = args.str("flavours", "sync");
             if sel == "sync" || sel == "sync_digraph" {
@@ -223,7 +225,7 @@ fn main() {
                     for_flavours!(fl.as_str(), F, { reproduced |= mutate::replay::<F>(r) });
                 }
                 "conc" => {
-                    let pool = conc::Pool::new(3);
+                    let pool = conc::Pool::new(4);
                     if fl == "sync_digraph" {
                         reproduced |= conc_check::replay::<flav::SyncDi>(&pool, r);
                     } else {
